@@ -51,6 +51,7 @@ def run(ctx, rep):
     rep.rule("R01.6", "references passed as arguments/results stay valid: counting discipline (= C10)")
     rep.rule("R01.7", "exceptions keep class and data across hops (= C09 reconstruction rules)")
     rep.rule("R01.8", "exactly one response per request, handler at most once (= C08)")
+    rep.rule("R01.11", "every issued request reaches the wire: send-layer hand-off discipline (= R12.1-R12.3)")
     rep.rule("R01.10", "the proxy resolves its own machinery (incl. __call__) locally and fetches everything else by its own name (= R02.7)")
     rep.rule("R01.9", "value/reference decision and identity (= C03)")
     rep.assume("equality of transported values is decided by C03/C04; semantics of user callables are out of scope")
@@ -345,4 +346,6 @@ def run(ctx, rep):
             and "no-exception continuation" not in o.key, "R01.8", floor=6)
     K.share(ctx, rep, "c03", lambda o: o.rule in ("R03.1", "R03.2", "R03.3", "R03.4"), "R01.9", floor=8)
     # a call spelled `f.__call__(x)` / hasattr(f, "__call__") goes through the proxy's attribute plumbing
-    K.share(ctx, rep, "c02", lambda o: o.rule == "R02.7", "R01.10", floor=2)
+    K.share(ctx, rep, "c02", lambda o: o.rule == "R02.7" or o.rule == "R02.8", "R01.10", floor=3)
+    # a request that was issued is transmitted (a stranded request is a call that never runs)
+    K.share(ctx, rep, "c12", lambda o: o.rule in ("R12.1", "R12.2", "R12.3"), "R01.11", floor=6)
